@@ -21,7 +21,7 @@ def run(ctx):
     r = gencheck.run_gen(ctx, 60 if quick else 1500)
     for d in r["diags"]["rend"]:
         cls = rendcheck.classify(d)
-        if cls in ("sel", "vm", "raster"):
+        if cls in ("sel", "vm", "raster", "pipe"):
             ctx.violation("rend:%s:%s:%s" % (cls, d.get("what"), d.get("id")),
                           "pipeline differs from the decoding machine: %s" % d.get("what"), gencheck.short(d))
         elif cls == "gen" and "selectors" in str(d.get("what")):
